@@ -44,6 +44,8 @@ def commb_frame(rng, df, mb, ac13=None):
     if u < 0.12:
         # the address-parity field of a reply from a boundary address (000000: AP = plain parity; FFFFFF; a one-bit address)
         f = gen.with_parity(f[:11], rng.choice([0, 0, 0xFFFFFF, 1 << rng.randrange(24)]))
+    elif u < 0.17:
+        f = gen.selfsim_tail(rng, f, 1.0)
     return f
 
 
